@@ -137,6 +137,47 @@ def regex_cases():
     return out
 
 
+# Atoms that SOME layer of the stack may take for a number although another does not.  Decimal digits of other scripts (Nd: the
+# lexer's `\d`, int() and float() accept them); "other" digits (No - superscripts, subscripts, circled / parenthesised / dingbat
+# digits, fractions: str.isdigit() / str.isnumeric() accept many of them, int() refuses all; the lexer reads them as identifier
+# characters); letter numbers (Nl: identifier BODY characters only); numeric CJK letters (Lo); and ASCII spellings on both sides of
+# the NUMBER grammar.  Each goes into every position of a holographic pattern where the reader or the schema extractor parses an atom.
+NUMBERISH_ATOMS = {
+    "No": ["²", "①", "¹²", "⑳", "₃", "½", "¾", "⒈", "❶", "㊿", "൰", "𐄇", "²x", "x²", "_²", "①②③", "²⁄₃", "-²", "²e²"],
+    "Nd": ["٣", "١٢٣", "३", "３", "𝟑", "٣.٥", "-٣", "٣e٢", "x٣", "1٣", "٣_٣"],
+    "Nl": ["Ⅷ", "xⅧ", "_Ⅷ", "〇", "x〇", "ᛮ", ".Ⅷ"],
+    "Lo": ["一", "万", "零"],
+    "ascii": ["1", "-5", "+5", "3.14", "1e5", "1E-3", "1_000", "_1", "e5", "1e", "inf", "nan", "-inf", "Infinity", "0x1F", "1.", ".5", "1.2.3", "--1", "1-",
+              "007", "1e+", "true", "null", "a", '"q"', '"²"', "$V"],
+}
+HOLO_SHAPES = [
+    "K::[{a}∧REQ]\n", "K::[{a}&OPT]\n", "K::[{a}∧REQ→§SELF]\n", "K::[{a}->§T]\n", "K::[{a}∧ENUM[{a},b]]\n", "K::[{a}∧CONST[{a}]]\n",
+    "K::[{a}∧RANGE[{a},{a}]]\n", "K::[x∧MAX_LENGTH[{a}]∧MIN_LENGTH[{a}]]\n", "K::[[{a},a]∧OPT]\n", "K::[[{a}]∧REQ]\n", "K::[[[{a}],{a}]∧REQ]\n",
+    "K::[x,[{a}∧REQ]]\n", "K::[{a}∧]\n", "K::[ {a} ∧ REQ ]\n", "B:\n  K::[{a}∧REQ]\n  L::[k::[{a}∧OPT]]\n",
+    "===D===\nMETA:\n  TYPE::T\n  RANK::[{a}∧REQ]\n===END===\n", "===D===\nMETA:\n  N:\n    RANK::[[{a},a]∧OPT]\n===END===\n",
+    "===D===\nMETA:\n  TYPE::SCHEMA\nFIELDS:\n  F::[{a}∧REQ]\n  G::[{a}]\n  H::[[{a}]]\n  I::{a}\n===END===\n",
+    "===D===\n§1::S\n  K::[{a}∧REQ→§1]\n===END===\n",
+]
+
+
+def holographic_cases():
+    """every number-ish atom in every atom position of a holographic pattern (body, block, inline map, META, nested META, FIELDS, section)."""
+    return [sh.replace("{a}", a) for atoms in NUMBERISH_ATOMS.values() for a in atoms for sh in HOLO_SHAPES]
+
+
+def holographic_tool_pool():
+    """contents for the tools clause, two atoms per category: (A) a schema document whose FIELDS hold the atom in plain one-element
+    lists - the reader accepts it, the atom is parsed by the schema extractor only (octave_eject(format=gbnf), octave_compile_grammar,
+    validate with grammar flags); (B) envelope-less text whose FIELDS hold it in holographic patterns (parsed by the reader itself)."""
+    out = []
+    for atoms in NUMBERISH_ATOMS.values():
+        for a in atoms[:2]:
+            out.append(f"===D===\nMETA:\n  TYPE::SCHEMA\nFIELDS:\n  TIER::[{a}]\n  H::[[{a}]]\n===END===\n")
+            out.append(f"FIELDS:\n  LEVEL::[{a}∧REQ]\n  OPTS::[[{a},a]∧ENUM[{a},b]]\n")
+    out.append("===D===\nMETA:\n  TYPE::T\n  RANK::[₃∧REQ]\n===END===\n")
+    return out
+
+
 def tools_chunk(arg):
     """worker: the tools clause on a few contents; returns (failures, stats)."""
     import random as _r
@@ -146,10 +187,171 @@ def tools_chunk(arg):
     return fails, getattr(tt.tools_total_failures, "last_stats", {"calls": 0, "by_tool": {}})
 
 
+# --------------------------------------------------------------------------------------------------
+# tool route: deep-nesting ladders (indentation-nested blocks / nested § sections, depths around and beyond CPython's recursion
+# limit) through ALL four tools — every eject format x mode, both grammar formats, validate flags, every write mode.
+# The tools clause holds "whatever the content argument holds": a tool that lets RecursionError (or anything) escape fails it.
+# --------------------------------------------------------------------------------------------------
+LADDERS_TOOLROUTE = {
+    # one space per level keeps a d-deep text at d*d/2 characters (1300 levels: 0.85 MB)
+    "nested_blocks": lambda d: "===DEEP===\n" + "".join(" " * i + f"B{i}:\n" for i in range(d)) + " " * d + "K::1\n===END===\n",
+    "nested_sections": lambda d: "".join(" " * i + f"§{i + 1}::S{i}\n" for i in range(d)) + " " * d + "K::1\n",
+    "nested_blocks_in_sections": lambda d: "===DEEP===\n" + "".join(" " * i + (f"§{i + 1}::S{i}\n" if i % 2 == 0 else f"B{i}:\n") for i in range(d)) + " " * d + "K::1\n===END===\n",
+}
+LADDER_BUILDER_TOOLROUTE = {
+    "nested_blocks": "'===DEEP===\\n' + ''.join(' ' * i + f'B{i}:\\n' for i in range(d)) + ' ' * d + 'K::1\\n===END===\\n'",
+    "nested_sections": "''.join(' ' * i + f'§{i + 1}::S{i}\\n' for i in range(d)) + ' ' * d + 'K::1\\n'",
+    "nested_blocks_in_sections": "'===DEEP===\\n' + ''.join(' ' * i + (f'§{i + 1}::S{i}\\n' if i % 2 == 0 else f'B{i}:\\n') for i in range(d)) + ' ' * d + 'K::1\\n===END===\\n'",
+}
+LADDER_CALL_GROUPS_TOOLROUTE = ["eject:octave", "eject:json", "eject:yaml", "eject:markdown", "eject:gbnf", "grammar+validate", "write"]
+
+
+def ladder_depths_toolroute(thorough: bool, widen: bool = False):
+    """depths per family: below, around and beyond the depth at which the reader overflows the interpreter stack (about 990 block
+    levels / 495 section levels); thorough: every 50 levels up to 1600 and 3000; widened quick run: every 200 levels in addition."""
+    d = {"nested_blocks": [150, 400, 800, 950, 1000, 1050, 1300], "nested_sections": [150, 350, 450, 500, 550, 1300], "nested_blocks_in_sections": [300, 700, 1300]}
+    if thorough:
+        d = {k: sorted(set(v + list(range(100, 1601, 50)) + [3000])) for k, v in d.items()}
+    elif widen:
+        d = {k: sorted(set(v + list(range(100, 1601, 200)))) for k, v in d.items()}
+    return d
+
+
+def ladder_calls_toolroute(group, content):
+    """the calls of one group on one content ("$C" stands for the content in the recorded arguments)."""
+    from harness import tools_total as tt
+    if group.startswith("eject:"):
+        f = group.split(":")[1]
+        return [("eject", {"content": content, "schema": "META", "format": f, "mode": m}) for m in tt.EJECT_MODES]
+    if group == "grammar+validate":
+        return ([("grammar", {"content": content, "format": f}) for f in tt.GRAMMAR_FORMATS] + [("grammar", {"content": content})] +
+                [("validate", {"content": content, "schema": "META"}), ("validate", {"content": content, "schema": "META", "fix": True, "grammar_hint": True}),
+                 ("validate", {"content": content, "schema": "SKILL", "diff_only": True, "profile": "STRICT"}), ("validate", {"content": content, "schema": "NOPE", "compact": True, "debug_grammar": True})])
+    small = "===A===\nK::1\n===END===\n"
+    return [("write", {"target_path": "$TMP/fresh", "content": content}), ("write", {"target_path": "$TMP/fresh", "content": content, "lenient": True, "schema": "META", "grammar_hint": True}),
+            ("write", {"target_path": "$TMP/fresh", "content": content, "corrections_only": True, "parse_error_policy": "salvage"}),
+            ("write", {"target_path": "$TMP/existing", "_existing": content}),                                   # normalize the file in place
+            ("write", {"target_path": "$TMP/existing", "_existing": content, "changes": {"ZZ": 1}}),
+            ("write", {"target_path": "$TMP/existing", "_existing": content, "content": small}),                 # overwrite a deep file
+            ("write", {"target_path": "$TMP/existing", "_existing": small, "content": content, "lenient": True})]
+
+
+def nesting_depth_toolroute(text: str):
+    """(deepest indentation nesting, deepest nesting with § section levels counted twice) of a text — iterative, from the indentation
+    alone.  The second number follows the reader's recursion: a block level costs one parser frame, a section level two."""
+    stack, best, best_w = [], 0, 0
+    for line in text.split("\n"):
+        s = line.lstrip(" ")
+        if not s or not (s.startswith("§") or s.rstrip().endswith(":")):
+            continue
+        ind = len(line) - len(s)
+        while stack and stack[-1][0] >= ind:
+            stack.pop()
+        stack.append((ind, 2 if s.startswith("§") else 1))
+        best = max(best, len(stack))
+        best_w = max(best_w, sum(x[1] for x in stack))
+    return best, best_w
+
+
+def kf_eject_yaml_deep_nesting(case) -> bool:
+    """C20N3: octave_eject(format="yaml") on content whose blocks / sections nest 300 or more levels deep (the reader still accepts it;
+    yaml.dump recurses several frames per level; first failing depth measured: 328)."""
+    n = case.get("nesting") or (0, 0)
+    # upper bound: beyond it the reader itself overflows the stack and eject answers with its parse-error envelope
+    return case.get("tool") == "eject" and (case.get("args") or {}).get("format") == "yaml" and n[0] >= 300 and n[1] < 1000
+
+
+def kf_write_over_deep_existing_file(case) -> bool:
+    """C20N4: octave_write in content / normalize mode (no `changes`) onto a target that EXISTS and whose content nests so deep that the
+    baseline parse of the existing file raises RecursionError (block levels + 2 x section levels >= 950; first failing measured: 987),
+    which the handler around that parse (LexerError, ParserError only) does not cover."""
+    a = case.get("args") or {}
+    n = case.get("existing_nesting") or (0, 0)
+    return case.get("tool") == "write" and "_existing" in a and "changes" not in a and n[1] >= 950
+
+
+LADDER_CLASSES_TOOLROUTE = {"kf_eject_yaml_deep_nesting": kf_eject_yaml_deep_nesting, "kf_write_over_deep_existing_file": kf_write_over_deep_existing_file}
+CLASSES.update(LADDER_CLASSES_TOOLROUTE)
+
+
+def ladder_replay_toolroute(tool, shown, family, depth):
+    """python one-liner that rebuilds the ladder text and repeats the call ($C = the text, $TMP = a fresh directory)."""
+    cls = {"validate": "octave_mcp.mcp.validate.ValidateTool", "write": "octave_mcp.mcp.write.WriteTool", "eject": "octave_mcp.mcp.eject.EjectTool",
+           "grammar": "octave_mcp.mcp.compile_grammar.CompileGrammarTool"}[tool]
+    mod, c = cls.rsplit(".", 1)
+    return (f"import asyncio, json, os, tempfile; from {mod} import {c}; C = (lambda d: {LADDER_BUILDER_TOOLROUTE[family]})({depth}); T = tempfile.mkdtemp(); "
+            f"a = {shown!r}; a = {{k: (C if v == '$C' else v) for k, v in a.items()}}; e = a.pop('_existing', None); "
+            f"a.update({{'target_path': os.path.join(T, 'doc.oct.md')}} if 'target_path' in a else {{}}); "
+            f"e is None or open(a['target_path'], 'w', encoding='utf-8', newline='').write(e); print(json.dumps(asyncio.run({c}().execute(**a)))[:400])")
+
+
+def ladder_chunk_toolroute(arg):
+    """worker: (family, depth, group) -> [failure records]; every call of the group on the ladder text, judged by the tools clause."""
+    from harness import tools_total as tt
+    family, depth, group = arg
+    content = LADDERS_TOOLROUTE[family](depth)
+    small_nest = (1, 0)
+    targets, out, n = tt._Targets(), [], 0
+    try:
+        for tool, args in ladder_calls_toolroute(group, content):
+            outcome, value = tt.execute(tool, targets.materialise(args))
+            n += 1
+            bad = tt.judge(outcome, value)
+            if bad is not None:
+                shown = {k: ("$C" if v is content else v) for k, v in args.items()}
+                nest = nesting_depth_toolroute(content)
+                out.append({"tool": tool, "args": shown, "family": family, "depth": depth, "why_class": bad[0], "why": f"octave_{tool}: {bad[1]}",
+                            "nesting": nest if args.get("content") is content else small_nest,
+                            "existing_nesting": (nest if args.get("_existing") is content else small_nest) if "_existing" in args else None,
+                            "content": f"$C = (lambda d: {LADDER_BUILDER_TOOLROUTE[family]})({depth})   # {len(content)} characters",
+                            "replay": ladder_replay_toolroute(tool, shown, family, depth)})
+    finally:
+        targets.close()
+    return out, n
+
+
+def ladders_toolroute(ctx, findings):
+    """deep-nesting ladders through every tool, in worker processes under a deadline; failures inside the two recorded classes are counted."""
+    for f in findings:
+        if f["cls"] in LADDER_CLASSES_TOOLROUTE:
+            w = f["witness"]
+            kind, val = vlib.run_with_timeout(ladder_chunk_toolroute, (w["family"], w["depth"], w["group"]), 120)
+            hit = [r for r in (val[0] if kind == "ok" else []) if CLASSES[f["cls"]](r)]
+            if hit:
+                ctx.known_reproduced.append((f, f"{w['family']}({w['depth']}): {hit[0]['why'][:120]}"))
+            else:
+                ctx.notes.append(f"known finding {f['id']} no longer reproduces on its witness")
+    items = [(fam, d, g) for fam, ds in ladder_depths_toolroute(ctx.thorough, ctx.widen > 1).items() for d in ds for g in LADDER_CALL_GROUPS_TOOLROUTE]
+    # the heaviest items first, so that the pool drains evenly
+    items.sort(key=lambda it: -it[1])
+    res, unf = vlib.pmap_deadline(ladder_chunk_toolroute, items, 240 if not ctx.thorough else 2400)
+    calls = 0
+    for i, r in enumerate(res):
+        fam, d, g = items[i]
+        if i in unf:
+            ctx.failures.append({"case": {"family": fam, "depth": d, "calls": g, "content": f"(lambda d: {LADDER_BUILDER_TOOLROUTE[fam]})({d})"},
+                                 "why": f"the {g} calls on {fam}({d}) did not return within the deadline", "why_class": "tool:hang:ladder"})
+            continue
+        if isinstance(r, dict) and "__worker_exception__" in r:
+            raise vlib.Infra(f"ladder worker failed: {r['__worker_exception__']}")
+        fails, n = r
+        calls += n
+        ctx.count(f"ladder:{fam}:calls", n)
+        for fl in fails:
+            case = {k: fl[k] for k in ("tool", "args", "family", "depth", "content", "replay", "nesting", "existing_nesting")}
+            ctx.case({k: case[k] for k in ("tool", "args", "family", "depth")})
+            X.classify(ctx, findings, CLASSES, case, f"{fl['why']}  [content: {fam} nested {d} deep]", "tool:" + fl["why_class"] + ":ladder:" + fl["tool"])
+    ctx.extra["ladder_tool_calls"] = calls
+    ctx.evaluations += calls
+
+
 def run(ctx: vlib.Ctx):
-    ctx.rule = ("token sequences <=3 (thorough 4, sampled in quick) over the 33-symbol token alphabet at two positions; seeded random strings over all "
-                "planes; span mutations of every shipped document; bracket/indent depth ladders; 10 size-scaled families at n,2n,4n,8n with a "
-                "deterministic cost; all four tools x flags on a sample; non-trivial = any; distinct = distinct text")
+    ctx.rule = ("token sequences <=3 (thorough 4, sampled in quick) over the 38-symbol token alphabet (incl. non-ASCII digits of categories No, Nd, Nl) "
+                "at two positions; seeded random strings over all planes (incl. the digit / number-form blocks); span mutations of every shipped document; "
+                "bracket/indent depth ladders; every number-ish atom (Nd / No / Nl / numeric Lo characters, ASCII spellings around the NUMBER grammar) in every "
+                "atom position of a holographic pattern; 10 size-scaled families at n,2n,4n,8n with a "
+                "deterministic cost; all four tools x flags on a sample; deep-nesting ladders (blocks / § sections / mixed, below, around and beyond the "
+                "interpreter's recursion limit) through every tool, format and mode; non-trivial = any; distinct = distinct text")
     proj = X.setup(ctx, PROPS)
     # tools clause: guard-coverage theorems of the `tools` engine (regenerated Gen/Guards from the execute() bodies)
     ctx.translate("tools")
@@ -161,13 +363,17 @@ def run(ctx: vlib.Ctx):
     if ctx.thorough:
         texts += TC.token_sequences(4, rng, sample=200000)
     planes = [(0x20, 0x7E), (0x0, 0x1F), (0x7F, 0xFF), (0x100, 0x24F), (0x300, 0x36F), (0x2000, 0x206F), (0x2190, 0x22FF), (0x3000, 0x30FF),
-              (0xE000, 0xE0FF), (0xFE00, 0xFE0F), (0x1F300, 0x1F64F), (0xE0100, 0xE01EF)]
+              (0xE000, 0xE0FF), (0xFE00, 0xFE0F), (0x1F300, 0x1F64F), (0xE0100, 0xE01EF),
+              # digits and other numeric characters: Arabic-Indic / Devanagari (Nd), super- and subscripts, number forms (No, Nl),
+              # enclosed alphanumerics (No), fullwidth digits (Nd), mathematical digits (Nd, astral)
+              (0x660, 0x669), (0x966, 0x96F), (0x2070, 0x209C), (0x2150, 0x218B), (0x2460, 0x24FF), (0xFF10, 0xFF19), (0x1D7CE, 0x1D7FF)]
+    digit_tokens = ["²", "①", "₃", "½", "Ⅷ", "٣", "[²∧", "[①∧REQ]", "∧REQ]", "&", "FIELDS:\n  "]
     for _ in range(ctx.budget(2000, 40000)):
         k = rng.randint(0, 40)
         s = []
         for _ in range(k):
             if rng.random() < 0.45:
-                s.append(rng.choice(TC.TOKENS + ["```", "`", '"', '"""', "\\", "{", "}", "<", ">", "%", "===", "\t", "\r", "META:", "===END===", "OCTAVE::5"]))
+                s.append(rng.choice(TC.TOKENS + ["```", "`", '"', '"""', "\\", "{", "}", "<", ">", "%", "===", "\t", "\r", "META:", "===END===", "OCTAVE::5"] + digit_tokens))
             else:
                 lo, hi = rng.choice(planes)
                 c = rng.randint(lo, hi)
@@ -180,7 +386,8 @@ def run(ctx: vlib.Ctx):
         for _ in range(rng.choice([1, 1, 2, 4])):
             t = TC.mutate(t, rng)
         texts.append(t)
-    texts += bracket_cases() + regex_cases()
+    texts += bracket_cases() + regex_cases() + holographic_cases()
+    ctx.count("stream:holographic_numberish_atoms", len(holographic_cases()))
     texts = list(dict.fromkeys(texts))
     # reader calls run under a deadline: a hang of the implementation is a violation of this property, not a timeout of the check
     chunks = [texts[i:i + 250] for i in range(0, len(texts), 250)]
@@ -281,7 +488,7 @@ def run(ctx: vlib.Ctx):
         for gi in range(ctx.budget(40, 600)):
             _d, ctext, _cr, ltext, _lr = TC.gen_case(ctx.seed, 100000 + gi)
             gen_docs += [ctext, ltext]
-        sample = rng.sample(texts, min(len(texts), ctx.budget(40, 1500))) + corpus[:4] + pool + gen_docs
+        sample = rng.sample(texts, min(len(texts), ctx.budget(40, 1500))) + corpus[:4] + pool + holographic_tool_pool() + gen_docs
         # the tools run in worker processes under a deadline: a call that does not return is a failure of the property
         # (with the content as replay), never a stuck check
         per = 12
@@ -317,6 +524,7 @@ def run(ctx: vlib.Ctx):
                 ctx.known_hits[fl["known"]] = ctx.known_hits.get(fl["known"], 0) + 1
             else:
                 ctx.failures.append({"case": case, "why": fl["why"], "why_class": "tool:" + fl["why_class"]})
+        ladders_toolroute(ctx, findings)
     ctx.assumptions = ["CPython recursion limit and memory are runtime: block nesting beyond the documented cap of 100 is outside the statement",
                        "the timing clause is judged on a deterministic cost (executed line events), wall time is not used",
                        "proved for every input: lexer closure / progress / no hang (Props/C20), parser closure and parser fuel adequacy = no hang (Props/C20parser); the timing clause has no cost model in Lean and is decided by the deterministic-cost scaling families"]
